@@ -159,9 +159,12 @@ func (n *xsNode) project() xsState {
 
 // ---------------------------------------------------------------------------------------------- controls
 
-// setOrder makes getNextNode prefer the peers in the given order: speeds three decimal orders apart, all
-// counters that only take part in the sort equal.  errs: errorRespCnt per peer name (default 0).
-func (n *xsNode) setOrder(ord []string, errs map[string]int64, def int64) {
+// setOrder makes getNextNode prefer the peers in the given order.  NodeWeights.Less is
+//   Weight(i) < Weight(j) && errorRespCnt(i) >= errorRespCnt(j) && timeoutCnt(i) >= timeoutCnt(j)
+// which is a strict order only if the counters do not contradict the weights.  So: speeds three decimal orders
+// apart, timeoutCnt = 1000*rank (checkTimeout increments it before it sorts), errorRespCnt = rank (one increment
+// of any peer keeps it monotone); delTarget gets SYNC_MAX_ERROR_RESP_TIMES-1 so that its next error deletes it.
+func (n *xsNode) setOrder(ord []string, delTarget string) {
 	m := n.mgr
 	now := time.Now().UnixNano() / int64(time.Millisecond)
 	m.lock.RLock()
@@ -189,10 +192,10 @@ func (n *xsNode) setOrder(ord []string, errs map[string]int64, def int64) {
 			w.reqTime[i] = now
 		}
 		w.lock.Unlock()
-		atomic.StoreInt64(&w.timeoutCnt, 0)
-		e, ok := errs[name]
-		if !ok {
-			e = def
+		atomic.StoreInt64(&w.timeoutCnt, int64(1000*rank))
+		e := int64(rank)
+		if name == delTarget {
+			e = SYNC_MAX_ERROR_RESP_TIMES - 1
 		}
 		atomic.StoreInt64(&w.errorRespCnt, e)
 	}
